@@ -543,8 +543,8 @@ class CHECK(core.Check):
     PROPERTY = "C13"
     LEAN_MODULES = ["IofloModel.Props.C13"]
     ENGINE = "resolvepath"
-    N_QUICK = 500
-    N_THOROUGH = 20000
+    N_QUICK = 400
+    N_THOROUGH = 12000
     N_SEARCH = 1500
     RULE = ("three case kinds from one rng: 40% `res` (skeleton of 1-4 framers x 1-3 nested frames with random `via` "
             "inodes built by the real Builder, random main links, act inode None/''/path, actor name, ipath over all "
@@ -559,10 +559,27 @@ class CHECK(core.Check):
                "share/node name is compared with the model (driver engine 'resolvepath')",
                "str.split/rstrip/join of CPython; the tokenizer (C16), literal conversion of `per` values (C17), "
                "clone naming surname_tag (C12)"]
-    PARTIAL = []
+    PARTIAL = ["theorems speak about path segments: nameToPath (camel case actor name -> segments), str.split and the "
+               "REO_* regular expressions are transcribed and tied to the code by the correspondence only; explicit "
+               "entity names written inline in a relative path token (framer.NAME.x) count as literal segments; "
+               "clone naming, Store.create share/node conflicts and the IndexError of resolvePath on paths ending in "
+               "`framer` / `frame` / `actor` are outside the property (the model reproduces the IndexError)"]
     TECHNIQUE = "Lean 4 theorems (equivariance of the transcribed resolvePath / parseIndirect under segment renamings) + differential and metamorphic correspondence"
-    LEVEL_TEXT = ""
-    LEVEL_NOTE = ""
+    LEVEL_TEXT = ("Full proof on the model: C13_resolve_equivariant (for every context - frame/over chain, framer, chain of "
+                  "main framers, actor -, act inode, path and every keyword-respecting renaming f of segments: resolvePath of "
+                  "the renamed inputs = renamed resolvePath), C13_absolute_ignores_ctx, C13_rename_one / "
+                  "C13_other_paths_unchanged / C13_rename_injective / C13_rename_framer_is_map (renaming one fresh name "
+                  "changes exactly the segments spelling it), C13_actor_splice (an actor's name enters as one run of "
+                  "segments, any new name), C13_parse_equivariant (parseIndirect/parseRelation commute with renaming the "
+                  "name tokens of the of-clauses), C13_parse_then_resolve, C13_clause_forms. No _partial theorem. Tied to "
+                  "the code by calling the real Builder.parseIndirect and Act.resolvePath (on Act objects inside houses "
+                  "built by the real Builder) and by building whole programs; the oracle rebuilds every case with one "
+                  "entity renamed and demands exactly the renamed segments to change.")
+    LEVEL_NOTE = ("Trusted: Lean kernel; axioms propext, Classical.choice, Quot.sound; hand transcription of "
+                  "acting.Act.resolvePath, aiding.nameToPath, building.parseIndirect/parseRelation validated only by the "
+                  "correspondence runs; a recording double replaces the store in direct resolvePath calls; main links of "
+                  "auxiliary framers are set by the harness as Frame.enter does; string splitting, regular expressions "
+                  "and nameToPath are outside the theorems.")
 
     # ---- generation
     def generate(self, rng, n, tier):
